@@ -161,8 +161,10 @@ private:
     auto oldState =
         opState_.fetch_and(~scopeEndedBit, std::memory_order_acq_rel);
 
-    if (use_count(oldState) == 0) {
-      // there are no outstanding operations to wait for
+    if (!scope_ended(oldState) && use_count(oldState) == 0) {
+      // this call ended the scope and there are no outstanding operations to
+      // wait for; if the scope had already been ended, whoever ended it or the
+      // last operation to complete is responsible for setting the event
       evt_.set();
     }
   }
